@@ -17,11 +17,50 @@ FIELD_TAG = {
 REGION_ADTS = ("desert_core::deserializer::ResolvedInputRegion", "desert_core::deserializer::InputRegion")
 
 
+INFERRED = {}        # (region adt, field not in FIELD_TAG) -> tag inferred from every initialiser / store (reset per run)
+_ARG_MEMO = {}
+
+
+def _callers(crate):
+    cs = crate.__dict__.get("_dim_callers")
+    if cs is None:
+        cs = {}
+        for b in crate.bodies.values():
+            for bb, t, info in mir.calls(b):
+                if info["def"] in crate.bodies:
+                    cs.setdefault(info["def"], []).append((b, t))
+        crate.__dict__["_dim_callers"] = cs
+    return cs
+
+
 class Dim:
     def __init__(self, body, crate=None):
         self.body = body
         self.crate = crate
         self.errors = []
+
+    def arg_tag(self, idx, depth):
+        """dimension of a usize parameter of a non-public function: the common dimension of the actual arguments at all its
+        call sites (so that `fn whole(input_len: usize)` called with input.len() is absolute); OFF (a count) otherwise"""
+        b, crate = self.body, self.crate
+        if crate is None or b.vis in (None, "Public") or (b.impl and b.impl.get("trait")) or b.in_trait or depth > 6:
+            return OFF
+        key = (b.defn, idx)
+        if key in _ARG_MEMO:
+            return _ARG_MEMO[key]
+        _ARG_MEMO[key] = OFF
+        sites = _callers(crate).get(b.defn, [])
+        res = None
+        for cb, t in sites:
+            if idx - 1 >= len(t["args"]):
+                continue
+            tg = Dim(cb, crate).tag(mir.Expr(cb).operand(t["args"][idx - 1]), depth + 1)
+            if tg == ANY:
+                continue
+            res = tg if res in (None, tg) else BAD
+        res = res if res in (ABS, OFF) else OFF
+        _ARG_MEMO[key] = res
+        return res
 
     def helper_tag(self, defstr):
         """dimension of the value a private non-anchor helper returns (the Ok payload for a Result): the common tag of all
@@ -87,6 +126,8 @@ class Dim:
             own = self.owner_of(e)
             if own and (own, e[2]) in FIELD_TAG:
                 return FIELD_TAG[(own, e[2])]
+            if own:
+                return INFERRED.get((own, e[2]), ANY)
             return ANY
         if k == "len":
             inner = strip_refs(e[1])
@@ -117,7 +158,7 @@ class Dim:
         if k == "cast":
             return OFF if e[1] == "IntToInt" else ANY
         if k == "arg":
-            return OFF if e[3] == "usize" else ANY
+            return self.arg_tag(e[1], depth) if e[3] == "usize" else ANY
         if k == "bin":
             a, b = self.tag(e[2], depth + 1), self.tag(e[3], depth + 1)
             if e[1] in ("Add", "AddWithOverflow"):
@@ -167,8 +208,55 @@ def coordinates(an, rep):
                        "input is absolute")
     core = an.core()
     ncmp = nstore = nagg = nidx = 0
+    INFERRED.clear()
+    _ARG_MEMO.clear()
+    core.__dict__.pop("_dim_helper", None)
+    # fields of the region types the table does not name (a renamed private field): their dimension is inferred from what is
+    # stored into them; the stores must agree
+    for _round in range(3):
+        seen = {}
+        for b in core.bodies.values():
+            if "deserializer" not in b.file or b.test:
+                continue
+            ex = dim = None
+            for bb in mir.reachable(b):
+                blk = b.blocks[bb]
+                if blk.get("cleanup"):
+                    continue
+                for st in blk["stmts"]:
+                    if st["k"] != "assign":
+                        continue
+                    rv = st["rv"]
+                    pairs = []
+                    if rv["rv"] == "agg" and rv.get("kind") == "adt" and rv["adt"] in REGION_ADTS:
+                        pairs = [((rv["adt"], fn_), ("op", fo)) for fn_, fo in zip(rv["fnames"], rv["fields"])]
+                    pl = st["place"]
+                    if pl["proj"] and pl["proj"][-1]["p"] == "field":
+                        own, fld = _owner(b, pl)
+                        if own in REGION_ADTS:
+                            pairs.append(((own, fld), ("rv", rv)))
+                    for key, (kind, v) in pairs:
+                        if key in FIELD_TAG:
+                            continue
+                        ex = ex or mir.Expr(b, core)
+                        dim = dim or Dim(b, core)
+                        tg = dim.tag(ex.operand(v) if kind == "op" else ex.rvalue(v))
+                        seen.setdefault(key, set()).add(tg)
+        new = {}
+        for key, tags in seen.items():
+            tags = tags - {ANY}
+            new[key] = ANY if not tags else (tags.pop() if len(tags) == 1 else BAD)
+        if new == INFERRED:
+            break
+        INFERRED.clear()
+        INFERRED.update(new)
+        _ARG_MEMO.clear()
+        core.__dict__.pop("_dim_helper", None)
+    for key, tg in sorted(INFERRED.items()):
+        R.check(tg != BAD, "%s.%s" % (mir.short(key[0]), key[1]), "inferred dimension", "field receives both absolute and "
+                "relative offsets", None, sample={"field": "%s.%s" % (mir.short(key[0]), key[1]), "inferred": tg})
     for b in sorted(core.bodies.values(), key=lambda b: b.key):
-        if not b.file.endswith(("deserializer/mod.rs", "adt/deserializer.rs")):
+        if "deserializer" not in b.file or b.test:
             continue
         ex = mir.Expr(b, core)
         dim = Dim(b, core)
@@ -193,8 +281,10 @@ def coordinates(an, rep):
                 if rv["rv"] == "agg" and rv.get("kind") == "adt" and rv["adt"] in REGION_ADTS:
                     nagg += 1
                     for fname, fo in zip(rv["fnames"], rv["fields"]):
-                        want = FIELD_TAG.get((rv["adt"], fname))
+                        want = FIELD_TAG.get((rv["adt"], fname), INFERRED.get((rv["adt"], fname), ANY))
                         got = dim.tag(ex.operand(fo))
+                        if want in (ANY, BAD):
+                            continue
                         R.check(got in (want, ANY), b.key, "%s.%s" % (mir.short(rv["adt"]), fname),
                                 "field `%s` (%s) is initialised with %s, which is %s" %
                                 (fname, want, show(ex.operand(fo)), got), where)
@@ -306,7 +396,7 @@ def no_peeking(an, rep):
                 n += 1
                 R.check(b.defn in unit, b.key, "reads " + hit, "reads the region bounds / raw input outside the "
                         "primitive layer (decoding could depend on the remaining length)", mir.loc(b, bb))
-    R.floor("accesses to region bounds / raw input", n, 10)
+    R.floor("accesses to region bounds / raw input", n, 3)
     return R
 
 
@@ -396,7 +486,9 @@ def pairing(an, rep):
         for p in paths:
             R.check(any(e[0] == "call" and e[2] in checks for e in p.events), key, "region stack",
                     "does not %s the region stack" % checks[0])
-            R.check(any(s for s in p.stores() if "current" in show(s[1])), key, "current", "does not update `current`")
+            upd = any(s for s in p.stores() if "current" in show(s[1])) or \
+                any(e[0] == "call" and e[2] in ("replace", "swap") and any("current" in show(x) for x in e[5]) for e in p.events)
+            R.check(upd, key, "current", "does not update `current`")
     # R2: buffers
     R2 = rep.rule("R2", "AdtSerializer::write_field pairs push_buffer(buffers[k].take()) with buffers[k] = Some(pop_buffer()) "
                         "on every non-error path; push_buffer/pop_buffer push/pop the buffer stack")
